@@ -177,6 +177,9 @@ Definition meta_of (f t : N) : N * N * N := (f, u64_sub t f mod 2^32, cert_type)
 
 (* the part of GetCertificateBuildParams + BuildCertificate after the block range [f,t] has been fixed *)
 Definition build_range (s : state) (last : option row) (rc f t : N) : option (submission * N) :=
+  (* GetBridges / GetClaims refuse a range that ends beyond the syncer's last processed block (the range of a certificate in
+     error that is resent as it is can be in that position after an L2 reorg, until the syncer has caught up) *)
+  if synced s <? t then None else
   let bs := bridges_in (l2 s) f t in
   let cs := claims_in (l2 s) f t in
   if require_events && is_nil bs && is_nil cs then None else                      (* PPFlow: buildParams.IsEmpty() *)
